@@ -5,13 +5,18 @@
   the three characteristics, `l2cap_output`). Every call of the user handler that touches device
   memory is recorded as an `Effect`.
 
-  The model is the code **with** `fixes/boot-01-read-procedure-length-check.patch` and
-  `fixes/boot-02-flash-only-white-listed-pages.patch` applied.
+  The model is the code **with** `fixes/boot-01-read-procedure-length-check.patch`,
+  `fixes/boot-02-flash-only-white-listed-pages.patch` and
+  `fixes/boot-03-new-procedure-leaves-flash-mode.patch` applied.
 -/
 namespace BluetoeModel.Bootloader
 
-/-- `std::uintptr_t` arithmetic wraps modulo `W` (64 bit harness host; `sizeof(uint8_t*) = 8`) -/
-def W : Nat := 2 ^ 64
+/-- `std::uintptr_t` arithmetic wraps modulo `W` (64 bit harness host; `sizeof(uint8_t*) = 8`).
+    Irreducible: the elaborator must never unfold `x % W` down to `Nat.mod` on the 2^64 literal in a
+    definitional equality check (that made builds slow and load dependent); proofs that need the
+    value use `W_eq`. -/
+@[irreducible] def W : Nat := 2 ^ 64
+theorem W_eq : W = 2 ^ 64 := by unfold W; rfl
 def ptrSize : Nat := 8
 
 /-- `page_size< page >`, `white_list< memory_region< start, end >… >` (end exclusive) -/
@@ -34,7 +39,7 @@ def flashablePage (cfg : Cfg) (a : Nat) : Bool :=
 /-- calls of the user handler -/
 inductive Effect where
   | readMem (a n : Nat)                 -- read_mem( a, n, … )
-  | startFlash (a n digest : Nat)       -- start_flash( a, values, n )
+  | startFlash (a n : Nat) (values : List UInt8)   -- start_flash( a, values, n ); `values` = `buffer_`
   | checksum (a n : Nat)                -- public_checksum32( a, n )
   | publicRead (a n : Nat)              -- public_read_mem( a, n, … )
   | run (a : Nat)
@@ -91,7 +96,7 @@ def Buf.flush (page : Nat) (b : Buf) : Buf × List Effect × Bool :=
     let rest := if page ≠ b.ptr then memRange ((b.addr + b.ptr) % W) (page - b.ptr) else []
     let effs := if page ≠ b.ptr then [Effect.readMem ((b.addr + b.ptr) % W) (page - b.ptr)] else []
     let data := b.data ++ rest
-    ({ b with st := .flashing, data := data }, effs ++ [.startFlash b.addr page (digest data)], true)
+    ({ b with st := .flashing, data := data }, effs ++ [.startFlash b.addr page data], true)
 
 -- src: flash_buffer::write_data (returns the number of bytes taken)
 def Buf.writeData (page : Nat) (b : Buf) (bs : List UInt8) : Buf × List Effect × Nat :=
@@ -158,12 +163,12 @@ def ctrlLeaveFlash (c : Ctl) (n : Nat) : CtrlResult :=
   if n ≠ 1 then requestError c invalidLength
   else .done { c with inFlash := false, next := 0, used := 0, b0 := c.b0.free, b1 := c.b1.free } 0 true false []
 
--- src: bootloader_write_control_point, case opc_get_crc
+-- src: bootloader_write_control_point, case opc_get_crc (`in_flash_mode = false` = fix boot-03)
 def ctrlGetCrc (cfg : Cfg) (c : Ctl) (value : List UInt8) : CtrlResult :=
   if value.length ≠ 17 then requestError c invalidLength
   else match readAddress value 1, readAddress value 9 with
     | some s, some e =>
-      let c := { c with start := s }
+      let c := { c with inFlash := false, start := s }
       if s > e || !acceptable cfg s e then requestError c invalidOffset
       else .done { c with check := publicChecksum s (e - s) } 0 true false [.checksum s (e - s)]
     | _, _ => .oob
@@ -200,12 +205,13 @@ def ctrlReset (c : Ctl) (n : Nat) : CtrlResult :=
   if n ≠ 1 then requestError c invalidLength
   else .done c 0 true false [.reset]
 
--- src: bootloader_write_control_point, case opc_read (length check = fix boot-01)
+-- src: bootloader_write_control_point, case opc_read (length check = fix boot-01,
+-- `in_flash_mode = false` = fix boot-03)
 def ctrlRead (cfg : Cfg) (c : Ctl) (value : List UInt8) : CtrlResult :=
   if value.length ≠ 17 then requestError c invalidLength
   else match readAddress value 1, readAddress value 9 with
     | some s, some e =>
-      let c := { c with error := 0, start := s, stop := e, check := crcOfAddress s }
+      let c := { c with inFlash := false, error := 0, start := s, stop := e, check := crcOfAddress s }
       if s > e || !acceptable cfg s e then requestError c invalidOffset
       else if s ≠ e then .done c 0 false true []
       else .done c 0 true false []
